@@ -38,7 +38,7 @@ def gen_edits(rng, spec):
     for _ in range(rng.randint(1, 3)):
         ti = rng.randrange(len(s2['tables']))
         t = s2['tables'][ti]
-        kind = rng.choice(['tname', 'tname', 'cname', 'cname', 'ctype', 'tschema'])
+        kind = rng.choice(['tname', 'tname', 'cname', 'cname', 'ctype', 'tschema', 'cpk', 'cpk', 'cflag'])
         if kind == 'tname':
             new = t['name'] + '_v2'
             if any(x['name'] == new for x in s2['tables']):
@@ -60,6 +60,14 @@ def gen_edits(rng, spec):
                     continue
                 c['name'] = new
                 edits.append(['cname', ti, ci, new])
+            elif kind == 'cpk':
+                # the key layout after the edit (none / one column / several) differs from the one the table was rendered with
+                c['pk'] = not c['pk']
+                edits.append(['cattr', ti, ci, 'pk', c['pk']])
+            elif kind == 'cflag':
+                f = rng.choice(['unique', 'not_null', 'autoinc'])
+                c[f] = not c[f]
+                edits.append(['cattr', ti, ci, f, c[f]])
             elif not isinstance(c['type'], dict):
                 c['type'] = 'bigint'
                 edits.append(['ctype', ti, ci, 'bigint'])
@@ -87,6 +95,8 @@ def impl_job(job):
                     t.schema = e[2]
                 elif e[0] == 'cname':
                     t.columns[e[2]].name = e[3]
+                elif e[0] == 'cattr':
+                    setattr(t.columns[e[2]], e[3], e[4])
                 else:
                     t.columns[e[2]].type = e[3]
             spec = job[3]
